@@ -205,6 +205,24 @@ func (o *c15Oracle) AfterTx(s *Sim, r *Replica, idx int, raw []byte, st mkvs.Key
 	// executed an action (a vault.AuthorizeAction that reaches the threshold dispatches the
 	// action's message with the vault as the caller).
 	actors := append([]staking.Address{signer}, vaultActors(res.Events)...)
+	// Escrow accounts slashed by this very transaction (runtime equivocation evidence, or an
+	// executor commitment that finalizes a round with incorrect results): their share price falls
+	// by design; the equal-fraction clause is judged from the block's events.
+	slashedByTx := map[staking.Address]bool{}
+	for _, ev := range res.Events {
+		if !strings.HasSuffix(ev.Type, "100_staking") {
+			continue
+		}
+		for _, at := range ev.Attributes {
+			if string(at.Key) == (&staking.TakeEscrowEvent{}).EventKind() {
+				var te staking.TakeEscrowEvent
+				if events.DecodeValue(string(at.Value), &te) == nil {
+					slashedByTx[te.Owner] = true
+					s.St.Inc("probe.c15.escrow_slashed_by_a_transaction")
+				}
+			}
+		}
+	}
 	for e, e0 := range o.before.esc {
 		e1 := after.esc[e]
 		if e1 == nil {
@@ -236,6 +254,9 @@ func (o *c15Oracle) AfterTx(s *Sim, r *Replica, idx int, raw []byte, st mkvs.Key
 		}
 		s.St.Inc("probe.c15.share_backing_checked")
 		// No transaction lowers the share price of a pool (only slashing does, at block boundaries).
+		if slashedByTx[e] && res.Code == 0 {
+			continue
+		}
 		if priceFell(e0.active, e1.active) {
 			o.viol = c15Viol("price-fell-by-transaction", fmt.Sprintf("%s: active pool of %s went from balance %s / %s shares to %s / %s shares: the share price fell", what, e, e0.active.B, e0.active.S, e1.active.B, e1.active.S))
 			return
